@@ -2225,7 +2225,10 @@ impl<'a> Socket<'a> {
             tcp_trace!("starting zero-window-probe timer for t+{}", delay);
             self.timer.set_for_zero_window_probe(cx.now(), delay);
         }
-        if self.remote_win_len != 0 && self.timer.is_zero_window_probe() {
+        // (also when everything was acknowledged: there is nothing left to probe with)
+        if (self.remote_win_len != 0 || self.tx_buffer.is_empty())
+            && self.timer.is_zero_window_probe()
+        {
             tcp_trace!("stopping zero-window-probe timer");
             if self.remote_last_seq != self.local_seq_no {
                 // Something is still in flight (it may well have been dropped while the
